@@ -6,7 +6,9 @@ S=/verif/seeded/$1; P=$2; T=${3:-quick}
 cd /repo || exit 9
 [ -z "$(git status --porcelain --untracked-files=no)" ] || { echo "repo not clean"; exit 9; }
 git apply "$S/patch.diff" || { echo "patch does not apply"; exit 9; }
+cp /verif/evidence/$P.json /tmp/evidence_$P.bak 2>/dev/null   # evidence must describe the unchanged tree: keep it
 cd /verif && timeout 3000 ./vcheck $P --tier $T 2>&1 | grep -v "INFO\|WARNING" | grep "PASS\|VIOLATION\|violation\|INCONCLUSIVE\|KNOWN" | cut -c1-400
 rc=${PIPESTATUS[0]}
 git -C /repo checkout -- . 
+cp /tmp/evidence_$P.bak /verif/evidence/$P.json 2>/dev/null; rm -f /tmp/evidence_$P.bak
 echo "seedcheck $1 $P tier=$T exit=$rc"
